@@ -47,6 +47,7 @@ def eval_source(o, shard, nshards):
 
 def run(c):
     from vlib import parse_coq_print
+    c.go2coq_sources = ["c20.go", "c10.go"]
     thorough = c.tier == "thorough"
     c.rule = ("patterns are abstracted from random type trees (sub-types -> $x/$_, parameter/field runs -> $*_, lengths -> $n; "
               "variables reused consistently and inconsistently) plus a hand-written catalogue (sequences in the middle, repeated "
@@ -65,10 +66,21 @@ def run(c):
         "the theorems speak about the types of one universe (wf, in_univ u); struct patterns constrain field types only "
         "(names, tags and embeddedness are not expressible in a pattern); a variadic signature is only denoted through a trailing $*_",
     ]
+    c.trusted += [
+        "go2coq c10tables: translates the `case opNamed:` clause of matchIdentical (straight-line string/bool code) into Gallina, "
+        "reads builtinTypeByName, the ReplaceAll calls of Parse and the placeholder prefixes; RG.Types.GoStrings as the meaning of "
+        "strings.Index / slicing (String.index / substring)",
+    ]
     c.build_theories()
-    c.require_theories("Types/GType.v", "Types/XIdentical.v", "Types/TypePat.v", "Types/TypePatInst.v", "Types/TypePatClosed.v", "Types/C14Run.v")
+    c.require_theories("Types/GType.v", "Types/XIdentical.v", "Types/TypePat.v", "Types/TypePatInst.v", "Types/TypePatClosed.v",
+                       "Types/C14Run.v", "Types/GoStrings.v")
     c.install_tmpl("C10/C10.v")
     c.coq_compile(["C10.v"])
+    # ---- P over code translated from typematch.go on this run: the opNamed clause (vendored paths), the builtin names, Parse's rewriting
+    if c.go2coq("c10tables", "Gen_C10.v"):
+        if c.coq_compile(["Gen_C10.v"]):
+            c.install_tmpl("C10/Inst_C10.v", "C10/C10Tr.v")
+            c.coq_compile(["Inst_C10.v", "C10Tr.v"])
 
     hb = c.build_harness("c10")
     if hb is None:
